@@ -25,6 +25,7 @@ def t_generic(chk, ix):
     from .. import rules_generic
     rules_generic.check_late_binding(chk, ix)
     rules_generic.check_finally_jumps(chk, ix)
+    rules_generic.check_shared_class_state(chk, ix, ("behave",), floor=100)
     # a cleanup that is silently not registered cannot fail the run
     from .. import rules_context
     rules_context.check_add_cleanup(chk, ix)
